@@ -114,6 +114,20 @@ func (g *Gen) Type(depth int) T {
 }
 
 func (g *Gen) keyType() T {
+	// comparable keys that are or contain pointers: the key conversion must copy them too
+	if g.R.Chance(18) {
+		switch g.R.Intn(3) {
+		case 0:
+			return Ptr{Basic{rng.Pick(g.R, []string{"int", "string"})}}
+		case 1:
+			return g.Declare("KP", Struct{[]Field{{Name: "P", Type: Ptr{Basic{"string"}}}, {Name: "N", Type: Basic{"int"}}}})
+		default:
+			if g.AllowArray {
+				return Array{2, Ptr{Basic{"int"}}}
+			}
+			return Ptr{Basic{"int"}}
+		}
+	}
 	if g.R.Chance(25) {
 		return g.Declare("K", Basic{rng.Pick(g.R, []string{"string", "int"})})
 	}
@@ -139,6 +153,7 @@ type MirrorOpts struct {
 	KindFlip  int // percent: change a basic kind (makes the pair unconvertible)
 	DropField int // percent: drop a source-side field in the target (fine) or add one (missing source)
 	ReCase    int // percent: change the case of a field name
+	KeepArray bool // arrays stay arrays (map keys must stay comparable)
 	ArrayFlip int // percent: slice<->array
 }
 
@@ -182,12 +197,15 @@ func (g *Gen) Mirror(src T, o MirrorOpts, depth int) T {
 		}
 		return Slice{g.Mirror(t.Elem, o, depth+1)}
 	case Array:
+		if o.KeepArray {
+			return Array{t.N, g.Mirror(t.Elem, o, depth+1)}
+		}
 		if r.Chance(100 - o.ArrayFlip) {
 			return Slice{g.Mirror(t.Elem, o, depth+1)}
 		}
 		return Array{t.N, g.Mirror(t.Elem, o, depth+1)}
 	case Map:
-		return Map{g.Mirror(t.Key, MirrorOpts{KindFlip: o.KindFlip}, depth+1), g.Mirror(t.Val, o, depth+1)}
+		return Map{g.Mirror(t.Key, MirrorOpts{KindFlip: o.KindFlip, KeepArray: true}, depth+1), g.Mirror(t.Val, o, depth+1)}
 	case Struct:
 		out := Struct{}
 		for _, f := range t.Fields {
